@@ -226,7 +226,7 @@ static int modeTimers(const std::string& xml) {
 	while (st != USCXML_FINISHED && usec() < deadline) {
 		if (gquiet) { uint64_t q = gAct.load(); if (q != lastSeq || feeding.load()) { lastSeq = q; lastActivity = usec(); } }
 		if (!stopwhen.empty() && waitFlag(stopwhen, 0)) { rec("STOP", stopwhen); break; }
-		st = ip.step(stopwhen.empty() ? 20 : 2);
+		st = ip.step(stopwhen.empty() ? (size_t)argl("block", 20) : 2);   // block=N: a stepper that really sleeps in step() (events must wake it)
 		if (st != USCXML_IDLE) { lastActivity = usec(); rec("R", std::to_string((int)st)); }
 		else if (!sent) { Event e(ext, Event::EXTERNAL); rec("SEND", ext); ip.receive(e); sent = true; lastActivity = usec(); }
 		else if (usec() - lastActivity > quiet) break;
